@@ -327,7 +327,7 @@ func params(kind string) kvh.GenParams {
 // wideParams: B-trees of high order filled with hundreds of keys, so that nodes
 // really hold dozens of entries (per-node search strategies, wide splits and merges).
 func wideParams() kvh.GenParams {
-	return kvh.GenParams{Kind: kvh.BTree, MaxOps: 60, RunMax: 160, Cmps: []string{dom.Nat, dom.Rev, dom.Mag}, Orders: []int{34, 40, 64, 100, 128}, Ranges: []int{400, 3000}}
+	return kvh.GenParams{Kind: kvh.BTree, MaxOps: 60, RunMax: pbt.Size(160), Cmps: []string{dom.Nat, dom.Rev, dom.Mag}, Orders: []int{34, 40, 64, 100, 128}, Ranges: []int{400, pbt.Size(3000)}}
 }
 
 func TestGenerated(t *testing.T) {
